@@ -716,6 +716,9 @@ def check_direct(d, ag, bundle):
       if direct and (r[0] in ("ModifyColumn", "AddColumn", "RemoveColumn", "RenameColumn", "AddTable", "RemoveTable", "RenameTable")
                      or r[1] in ("_grist_Tables_column", "_grist_Tables")):
         return "schema action marked direct in a bundle of record edits: %s" % (r,)
+  # columns that this very reply converts from empty to data: the conversion itself writes the new column's default
+  # values with a (non-direct) BulkUpdateRecord, and a requested value equal to that default leaves no action of its own
+  converted = {(r[1], r[2]) for r in reprs if r[0] == "ModifyColumn" and isinstance(r[3], dict) and r[3].get("isFormula") is False}
   for ua in bundle:
     kind, table = ua[0], ua[1]
     if not only_records or kind not in RECORD_KINDS or table in summ or table.startswith("_grist_"):
@@ -732,7 +735,7 @@ def check_direct(d, ag, bundle):
         # (columns with a formula - formula columns and trigger-formula columns - may be written by
         # the calc phase with the same shape of action, so they do not identify the user's edit)
         mine = bool(cols) and cols <= asked and tab is not None and not any(
-          tab.has_column(c) and tab.get_column(c).has_formula() for c in cols)
+          tab.has_column(c) and tab.get_column(c).has_formula() for c in cols) and not any((table, c) in converted for c in cols)
       else:
         mine = True
       if mine:
